@@ -313,7 +313,7 @@ func checkC12(c *hx.Checker) {
 			t := patternFill(carrier, []int{2}, 0)
 			tp := hx.TensorProto("", t, "typed")
 			tp.DataType = code
-			add(tp, "error", nil, fmt.Sprintf("code%d/typed-%s", code, carrier), fmt.Sprintf("code=%d", code), "unsupported-data-type", "carrier="+carrier.String())
+			add(tp, "error", nil, fmt.Sprintf("code%d/typed-%s", code, carrier), fmt.Sprintf("code=%d", code), "unsupported-data-type", "carrier="+carrier.String(), "carrier-is-a-typed-field")
 		}
 		t := patternFill(ref.U8, []int{4}, 0)
 		tp := hx.TensorProto("", t, "raw")
@@ -326,7 +326,7 @@ func checkC12(c *hx.Checker) {
 		t := patternFill(ref.F32, []int{2}, 0)
 		tp := hx.TensorProto("", t, "typed")
 		tp.DataType = code
-		add(tp, "error", nil, fmt.Sprintf("code%d/typed-float", code), fmt.Sprintf("code=%d", code), "unsupported-data-type", "carrier=float32")
+		add(tp, "error", nil, fmt.Sprintf("code%d/typed-float", code), fmt.Sprintf("code=%d", code), "unsupported-data-type", "carrier=float32", "carrier-is-a-typed-field")
 		t8 := patternFill(ref.U8, []int{4}, 0)
 		tpr := hx.TensorProto("", t8, "raw")
 		tpr.DataType = code
